@@ -36,21 +36,40 @@ type Spec struct {
 var reasons = map[int]string{200: "OK", 201: "Created", 204: "No Content", 206: "Partial Content", 301: "Moved Permanently",
 	302: "Found", 304: "Not Modified", 404: "Not Found", 500: "Internal Server Error", 299: "Custom Reason"}
 
-// Encoded is the body as it travels (content-encoded payload).
+// Encoded is the body as it travels (content-encoded payload). Besides the plain one-shot gzip /
+// deflate streams, the decoders' input space: gzip bodies made of several MEMBERS (RFC 1952 2.2:
+// pre-compressed fragments joined, a writer that was closed and restarted), gzip members with the
+// optional header fields (FEXTRA, FNAME, FCOMMENT), sync-flushed streams (several deflate blocks
+// with empty stored blocks in between), stored-only deflate. All produced by the real compress/*.
 func (s *Spec) Encoded() []byte {
 	switch s.Enc {
 	case "gzip":
 		return Gzip(s.Payload)
 	case "deflate":
 		return Deflate(s.Payload)
+	case "gzip-multi":
+		return GzipVariant(s.Payload, "multi")
+	case "gzip-hdr":
+		return GzipVariant(s.Payload, "hdr")
+	case "gzip-flush":
+		return GzipVariant(s.Payload, "flush")
+	case "deflate-flush":
+		return DeflateVariant(s.Payload, "flush")
+	case "deflate-stored":
+		return DeflateVariant(s.Payload, "stored")
 	}
 	return s.Payload
 }
 
+// EncVariants are the content codings beyond the one-shot streams (header value gzip / deflate).
+var EncVariants = []string{"gzip-multi", "gzip-multi", "gzip-hdr", "gzip-flush", "deflate-flush", "deflate-stored"}
+
 func (s *Spec) CEHeader() string {
 	switch s.Enc {
-	case "gzip", "gzip-bad":
+	case "gzip", "gzip-bad", "gzip-multi", "gzip-hdr", "gzip-flush":
 		return "gzip"
+	case "deflate-flush", "deflate-stored":
+		return "deflate"
 	case "":
 		return ""
 	}
@@ -230,6 +249,10 @@ func Gen(r *core.Rand, req bool, maxBody int) *Spec {
 			s.Enc = "br"
 		default:
 			s.Enc = "gzip-bad"
+		}
+		if s.Enc != "" && s.BodyTok == "" && r.Chance(1, 4) {
+			// (bodies small enough to go into the op literally: there is no descriptor form for these)
+			s.Enc = EncVariants[r.Intn(len(EncVariants))]
 		}
 		if s.IsForm || s.IsMulti {
 			if r.Chance(3, 4) {
